@@ -77,10 +77,13 @@ def build_chain(ops, rec):
     from genshi.builder import Element
 
     class RecPath(Path):
+        idx = None
+
         def test(self, ignore_context=False):
+            # generators start lazily (the last link first): key the record by the op index
             inner = Path.test(self, ignore_context)
-            mine = []
-            rec.append(mine)
+            mine = rec.setdefault(self.idx, [])
+            del mine[:]
 
             def _t(event, namespaces, variables, updateonly=False):
                 r = inner(event, namespaces, variables, updateonly=updateonly)
@@ -97,10 +100,11 @@ def build_chain(ops, rec):
         return bufs[i]
 
     t = None
-    for op in ops:
+    for i, op in enumerate(ops):
         name = op[0]
         if name == 'select':
             p = RecPath(G.path_str(op[1]))
+            p.idx = i
             t = Transformer(p) if t is None else t.select(p)
         elif name in ('replace', 'before', 'after', 'prepend', 'append'):
             t = getattr(t, name)(_content(op[1], bufs))
@@ -136,7 +140,7 @@ def jmark(m):
 
 def run_real(doc, ops):
     """-> dict(status 'ok'|'err', marked [[mark, event]...], err, bufs {id: events}, rec [[result...]...])"""
-    rec = []
+    rec = {}
     out = {'status': 'ok', 'marked': [], 'err': None, 'bufs': {}, 'rec': rec}
     events = G.to_genshi(G.flatten(doc))
     try:
@@ -164,6 +168,8 @@ def jres(event, r):
     if isinstance(r, Attrs):
         return ['A', [[G.jq(a), str(v)] for a, v in r]]
     if isinstance(r, tuple):
+        if r is event or tuple(r) == tuple(event):
+            return 'SELF'
         return ['E', G.from_genshi_event(r)]
     if r:
         return ['X', str(r)]
@@ -489,6 +495,164 @@ def oracle_case(case):
 
 
 # --------------------------------------------------------------------------
+# correspondence with the Lean model
+
+def w_qn(q):
+    return [q[0], q[1]]
+
+
+def w_attrs(a):
+    return [[w_qn(k), v] for k, v in a]
+
+
+def w_event(e):
+    k = e[0]
+    if k == 'S':
+        return [Atom('S'), w_qn(e[1]), w_attrs(e[2])]
+    if k == 'E':
+        return [Atom('E'), w_qn(e[1])]
+    if k == 'T':
+        return [Atom('T'), e[1], B(e[2])]
+    if k == 'C':
+        return [Atom('C'), e[1]]
+    if k == 'PI':
+        return [Atom('PI'), e[1], e[2]]
+    if k == 'AT':
+        return [Atom('AT'), w_qn(e[1]), w_attrs(e[2])]
+    if k == 'BR':
+        return Atom('BR')
+    raise ValueError(e)
+
+
+def u_event(v):
+    """decoded wire value -> JSON event"""
+    if isinstance(v, Atom):
+        if v == 'BR':
+            return ['BR']
+        raise ValueError(v)
+    k = str(v[0])
+    if k == 'S' or k == 'AT':
+        return [k, list(v[1]), [[list(a), b] for a, b in v[2]]]
+    if k == 'E':
+        return ['E', list(v[1])]
+    if k == 'T':
+        return ['T', v[1], v[2] == 'T']
+    if k == 'C':
+        return ['C', v[1]]
+    if k == 'PI':
+        return ['PI', v[1], v[2]]
+    raise ValueError(v)
+
+
+def w_res(r):
+    if r is None:
+        return N
+    if r is True:
+        return Atom('T')
+    if r == 'SELF':
+        return Atom('SELF')
+    if r[0] == 'A':
+        return [Atom('A'), w_attrs(r[1])]
+    if r[0] == 'E':
+        return [Atom('E'), w_event(r[1])]
+    return [Atom('X'), r[1]]
+
+
+def w_content(c):
+    if c[0] == 's':
+        return [Atom('STR'), c[1]]
+    if c[0] == 'ev':
+        return [Atom('ev'), [w_event(e) for e in G.flatten(c[1])]]
+    return [Atom('buf'), c[1]]
+
+
+def w_op(i, op, rec):
+    n = op[0]
+    if n == 'select':
+        return [Atom('SEL'), [w_res(jres(ev, r)) for ev, r in rec.get(i, [])]]
+    if n in ('invert', 'end', 'empty', 'remove', 'unwrap', 'buffer'):
+        return Atom(n)
+    if n == 'wrap':
+        return [Atom('wrap'), ['', op[1]], [[['', k], v] for k, v in op[2]]]
+    if n in INJ:
+        return [Atom(n), w_content(op[1])]
+    if n == 'attr':
+        return [Atom('attr'), ['', op[1]], N if op[2] is None else op[2]]
+    if n == 'rename':
+        return [Atom('rename'), ['', op[1]]]
+    if n in ('copy', 'cut'):
+        return [Atom(n), op[1], B(op[2])]
+    if n == 'map':
+        return [Atom('map'), B(op[1] == 'N')]
+    if n == 'substitute':
+        return [Atom('SUBST'), op[1], op[2], op[3]]
+    if n == 'filter':
+        return [Atom('filter'), B(op[1] == 'dropc')]
+    raise ValueError(op)
+
+
+def chain_line(case, real):
+    return proto.line(Atom('C20'), Atom('chain'), [w_event(e) for e in G.flatten(case['doc'])],
+                      [w_op(i, op, real['rec']) for i, op in enumerate(case['ops'])])
+
+
+def chain_real_answer(real):
+    """the real outcome in the model's output vocabulary"""
+    if real['status'] != 'ok':
+        return 'err'
+    return ['ok', [[m, e] for m, e in real['marked']], [[i, b] for i, b in sorted(real['bufs'].items())],
+            unmark(real['marked'])]
+
+
+def chain_model_answer(ans):
+    if ans in ('err', 'unmodelled', 'bad-op', 'bad-line'):
+        return ans
+    v = proto.dec(ans)
+    marked = [[None if m == 'N' else str(m), u_event(e)] for m, e in v[1]]
+    bufs = [[int(i), [u_event(e) for e in b]] for i, b in v[2]]
+    return ['ok', marked, bufs, [u_event(e) for e in v[3]]]
+
+
+def w_scalar(v):
+    return [str(v), B(bool(v)), B(v is None)]
+
+
+def w_val(v):
+    if isinstance(v, (list, tuple)):
+        return [Atom('many')] + [w_scalar(x) for x in v]
+    return [Atom('one'), w_scalar(v)]
+
+
+def form_line(case):
+    cfg = [N if case.get('name') is None else case['name'], N if case.get('id') is None else case['id'],
+           B(case.get('passwords', False)), [[k, w_val(v)] for k, v in case['data']]]
+    return proto.line(Atom('C20'), Atom('fill'), cfg, [w_event(e) for e in G.flatten(case['doc'])])
+
+
+def form_model_answer(ans):
+    if ans in ('err', 'unmodelled', 'bad-op', 'bad-line'):
+        return ans
+    v = proto.dec(ans)
+    return ['ok', [u_event(e) for e in v[1]]]
+
+
+def compare(items, res):
+    """items: (case, stream name, request line, real answer, model decoder)"""
+    answers = proto.run_lines([it[2] for it in items])
+    for (case, stream, _line, real, decode), ans in zip(items, answers):
+        try:
+            model = decode(ans)
+        except Exception as e:  # noqa
+            model = 'undecodable: %s: %s' % (type(e).__name__, ans[:200])
+        if model == 'unmodelled':
+            res.count('model:unmodelled')
+            continue
+        res.streams[stream] = res.streams.get(stream, 0) + 1
+        if model != real:
+            res.disagreements.append({'stream': stream, 'case': case, 'model': _short(model), 'real': _short(real)})
+
+
+# --------------------------------------------------------------------------
 # generation
 
 def gen_cases(rng, n):
@@ -496,7 +660,8 @@ def gen_cases(rng, n):
     for _ in range(n):
         r = rng.random()
         if r < 0.68:
-            cases.append({'kind': 'chain', 'doc': G.gen_doc(rng, rng.choice([1, 2, 2, 3])), 'ops': G.gen_chain(rng)})
+            doc = G.gen_doc(rng, rng.choice([1, 2, 2, 3]))
+            cases.append({'kind': 'chain', 'doc': doc, 'ops': G.gen_chain(rng, 4, doc)})
         elif r < 0.95:
             cases.append(G.gen_form_case(rng))
         else:
@@ -505,40 +670,98 @@ def gen_cases(rng, n):
     return cases
 
 
+def chain_key(case, real):
+    """distinct non-trivial chain: (operation names, path strings, marks that occur)"""
+    marks = sorted(set(m for m, _ in real['marked'] if m))
+    if not marks and len(case['ops']) == 1:
+        return None
+    return json.dumps([[o[0] if o[0] != 'select' else G.path_str(o[1]) for o in case['ops']], marks,
+                       len(real['marked'])])
+
+
+def process(cases, res):
+    items = []
+    for c in cases:
+        res.evaluations += 1
+        res.count('kind:' + c['kind'])
+        try:
+            if c['kind'] == 'chain':
+                real = run_real(c['doc'], c['ops'])
+                f = oracle_chain(c, real)
+                res.count('chain-len:%d' % (len(c['ops']) - 1))
+                for o in c['ops']:
+                    res.count('op:' + o[0])
+                res.count('chain-status:' + real['status'] + (':' + real['err'] if real['err'] else ''))
+                hits = [sum(1 for _, r in v if r is True or r) for _, v in sorted(real['rec'].items())]
+                res.count('first-select:' + ('matches' if hits and hits[0] else 'empty'))
+                if not G.admissible(c['ops']):
+                    res.count('chain:outside-nesting-precondition')
+                k = chain_key(c, real)
+                if k:
+                    res.nontrivial.add(k)
+                for m in set(m for m, _ in real['marked'] if m):
+                    res.count('mark:' + m)
+                items.append((c, 'chains', chain_line(c, real), chain_real_answer(real), chain_model_answer))
+            elif c['kind'] == 'form':
+                f = oracle_form(c)
+                st, out = run_filler(c)
+                if st == 'ok' and out != G.flatten(c['doc']):
+                    res.nontrivial.add(json.dumps([c['doc'], c['data']], sort_keys=True))
+                res.count('form-status:' + (st if st == 'ok' else 'err:' + out))
+                items.append((c, 'forms', form_line(c), ['ok', out] if st == 'ok' else 'err', form_model_answer))
+            else:
+                f = oracle_other(c)
+                res.count('other:' + c['filter'])
+        except Exception as e:  # noqa
+            import traceback
+            f = fail(c, 'oracle raised', 'no exception', '%s: %s %s' % (type(e).__name__, e, traceback.format_exc()[-600:]))
+        if f:
+            res.failures.append(f)
+    compare(items, res)
+
+
 def shard(arg):
     seed, idx, n = arg
     rng = random.Random('%s/%s/C20' % (seed, idx))
     res = Result()
     cases = gen_cases(rng, n)
-    for c in cases:
-        res.evaluations += 1
-        res.count('kind:' + c['kind'])
-        try:
-            f = oracle_case(c)
-        except Exception as e:  # noqa
-            f = fail(c, 'oracle raised', 'no exception', '%s: %s' % (type(e).__name__, e))
-        if f:
-            res.failures.append(f)
-    res.samples = cases[:2]
+    process(cases, res)
+    res.samples = [c for c in cases if c['kind'] == 'chain'][:1] + [c for c in cases if c['kind'] == 'form'][:1]
     return res
 
 
 def run(ctx):
     res = Result()
     nsh = 16
-    per = ctx.n(500, 15000)
+    per = ctx.n(500, 16000)
     for r in pmap('harness.props.c20', 'shard', [(ctx.seed, i, per) for i in range(nsh)]):
         res.merge(r)
-    res.rule = 'todo'
+    res.rule = ('chains: distinct (operation names, path strings, set of marks in the final marked stream, its length) with at '
+                'least one operation or one mark; forms: distinct (form document, data) whose output differs from the input')
+    res.samples = res.samples[:6]
     return res
 
 
 def search(ctx, res, broken):
-    return []
+    """a proof or the correspondence broke: judge the disagreeing inputs with the oracle on the real
+    code first, then a larger seeded hunt"""
+    found = []
+    for d in res.disagreements[:300]:
+        try:
+            f = oracle_case(d['case'])
+        except Exception:  # noqa
+            f = None
+        if f:
+            found.append(f)
+    if found:
+        return found
+    for r in pmap('harness.props.c20', 'shard', [(ctx.seed + 7919, 100 + i, 2500) for i in range(16)]):
+        found.extend(r.failures)
+    return found
 
 
 def replay(ctx, case):
     try:
         return oracle_case(case)
-    except (ValueError, KeyError, IndexError, TypeError):
+    except (ValueError, KeyError, IndexError, TypeError, AttributeError):
         return None
